@@ -37,7 +37,8 @@ type c15Node struct {
 type c15Case struct {
 	Nodes       []c15Node
 	Replicas    string
-	Selector    bool // canary.nodeSelector {zone: a}
+	Selector    bool // canary.nodeSelector selects zone a ...
+	SelForm     int  // ... written as 0 matchLabels{zone: a}, 1 zone In [a], 2 zone NotIn [b], 3 zone In [a] + tier Exists, 4 zone NotIn [b] + notthere DoesNotExist
 	Keys        []string
 	BTolerates  bool     // new template tolerates the taint
 	BSelector   bool     // new template has nodeSelector tier=a
@@ -50,7 +51,7 @@ func (k c15Case) String() string {
 	for _, n := range k.Nodes {
 		ns = append(ns, fmt.Sprintf("%s{zone=%s rack=%s tier=%s tainted=%v restarts=%d twoPods=%v namesakeRestarts=%d}", n.Name, n.Zone, n.Rack, n.Tier, n.Tainted, n.Restarts, n.TwoPods, n.Foreign))
 	}
-	return fmt.Sprintf("replicas=%s selector=%v keys=%v newTemplate{tolerates=%v selector=%v} prev=%v nodes=[%s]", k.Replicas, k.Selector, k.Keys, k.BTolerates, k.BSelector, k.Prev, strings.Join(ns, " "))
+	return fmt.Sprintf("replicas=%s selector=%v(form %d) keys=%v newTemplate{tolerates=%v selector=%v} prev=%v nodes=[%s]", k.Replicas, k.Selector, k.SelForm, k.Keys, k.BTolerates, k.BSelector, k.Prev, strings.Join(ns, " "))
 }
 
 func c15Template(k c15Case) corev1.PodTemplateSpec {
@@ -81,6 +82,7 @@ func c15Draw(rt *rapid.T) c15Case {
 	}
 	k.Replicas = rapid.SampledFrom([]string{"1", "2", "3", "4", "6", "20%", "30%", "50%", "100%"}).Draw(rt, "replicas")
 	k.Selector = rapid.IntRange(0, 2).Draw(rt, "selector") == 0
+	k.SelForm = rapid.IntRange(0, 4).Draw(rt, "selectorForm")
 	switch rapid.IntRange(0, 3).Draw(rt, "keys") {
 	case 1, 2:
 		k.Keys = []string{"rack"}
@@ -115,7 +117,21 @@ func runC15(k c15Case) (vs []mon.V, classes []string, err error) {
 	man := edsv1.ExtendedDaemonSetSpecStrategyCanaryValidationModeManual
 	st.Canary = &edsv1.ExtendedDaemonSetSpecStrategyCanary{Replicas: gen.ParseIntOrPercent(k.Replicas), ValidationMode: man, NodeAntiAffinityKeys: k.Keys}
 	if k.Selector {
-		st.Canary.NodeSelector = &metav1.LabelSelector{MatchLabels: map[string]string{"zone": "a"}}
+		// the same node set (zones are a or b, every node has a tier label) in different spellings of the selector
+		in := metav1.LabelSelectorRequirement{Key: "zone", Operator: metav1.LabelSelectorOpIn, Values: []string{"a"}}
+		notIn := metav1.LabelSelectorRequirement{Key: "zone", Operator: metav1.LabelSelectorOpNotIn, Values: []string{"b"}}
+		switch k.SelForm {
+		case 1:
+			st.Canary.NodeSelector = &metav1.LabelSelector{MatchExpressions: []metav1.LabelSelectorRequirement{in}}
+		case 2:
+			st.Canary.NodeSelector = &metav1.LabelSelector{MatchExpressions: []metav1.LabelSelectorRequirement{notIn}}
+		case 3:
+			st.Canary.NodeSelector = &metav1.LabelSelector{MatchExpressions: []metav1.LabelSelectorRequirement{in, {Key: "tier", Operator: metav1.LabelSelectorOpExists}}}
+		case 4:
+			st.Canary.NodeSelector = &metav1.LabelSelector{MatchExpressions: []metav1.LabelSelectorRequirement{notIn, {Key: "notthere", Operator: metav1.LabelSelectorOpDoesNotExist}}}
+		default:
+			st.Canary.NodeSelector = &metav1.LabelSelector{MatchLabels: map[string]string{"zone": "a"}}
+		}
 	}
 	// the active template tolerates the taint so that every node is targeted and carries an active pod
 	p := &Prep{C: c, NS: "ns1", Name: "foo", RS: map[byte]string{}}
